@@ -36,7 +36,8 @@ MIN_NONTRIVIAL = {'quick': 4000, 'thorough': 100000}
 REQUIRED_MONITORS = ['segment', 'all-colons', 'no-colons:cautious',
                      'no-colons:required', 'keyword-channel', 'sec_within',
                      'hook:segment',
-                     'hook:rebuild_sec_within', 'hook:findall_matching_sec']
+                     'hook:rebuild_sec_within', 'hook:findall_matching_sec',
+                     'variant:blank-before-colon', 'variant:no-connector']
 
 LEAD = ['That part of the NE/4', 'The north 100 feet', 'All that portion',
         'A tract of land', 'That part of Lot 1', 'NE/4', 'The W/2 and Lot 3',
@@ -77,7 +78,9 @@ def check_modes(case, ctx, rec, pytrs):
         if tr(a) != exp or a.e_flags:
             ctx.discard('C01-does-not-hold-here')
             return
-        ctx.case([txt, 'modes'], len(exp) >= 2, shape=f"modes|{layout}",
+        ctx.hit('variant:' + case.get('variant', 'plain'))
+        ctx.case([txt, 'modes'], len(exp) >= 2,
+                 shape=f"modes|{layout}|{case.get('variant', 'plain')}",
                  sample={'text': short(txt, 160), 'layout': layout})
         rec.reset()
         b = pytrs.PLSSDesc(txt, config='segment')
@@ -255,6 +258,27 @@ def gen_modes(rng):
         if k == 'sec' and nocol[b:b + 1] == ':':
             nocol = nocol[:b] + nocol[b + 1:]
     case['nocolon'] = nocol
+    # Two spelling variants inside the same layouts (the default parse of
+    # the variant must still give the expected tracts, else the case is
+    # discarded by check_modes):
+    r = rng.random()
+    spans = sorted(case['spans'], reverse=True)
+    if r < 0.15 and case['layout'] in ('TRS_desc', 'S_desc_TR'):
+        # a blank before the colon: 'Sec 14 : NE/4'
+        for a, b, k in spans:
+            if k == 'sec' and text[b:b + 1] == ':':
+                text = text[:b] + ' ' + text[b:]
+        case['variant'] = 'blank-before-colon'
+    elif r < 0.30 and case['layout'] == 'TR_desc_S':
+        # no 'of' between a block (of >= 4 characters) and its section:
+        # 'T154N-R97W SW/4 Section 1'
+        ends = {b: a for a, b, k in spans if k == 'block'}
+        for a, b, k in spans:
+            if k == 'sec' and text[a - 4:a] == ' of ' and (a - 4) in ends \
+                    and (a - 4) - ends[a - 4] >= 4:
+                text = text[:a - 3] + text[a:]
+        case['variant'] = 'no-connector'
+    case['text'] = text
     return case
 
 
